@@ -519,6 +519,19 @@ func dropDupKeys(a, b *Node) (*Node, *Node) {
 	return strip(a), strip(b)
 }
 
+// hasSum: the tree contains a value of a generated sum type.
+func hasSum(n *Node) bool {
+	if strings.HasPrefix(n.T, "sum:") {
+		return true
+	}
+	for _, c := range n.C {
+		if hasSum(c) {
+			return true
+		}
+	}
+	return false
+}
+
 // hollow: a struct, map or list in which nothing is set.
 func hollow(n *Node) bool {
 	if !(strings.HasPrefix(n.T, "struct:") || strings.HasPrefix(n.T, "map") || strings.HasPrefix(n.T, "list")) {
@@ -1065,6 +1078,7 @@ type TypedSide struct {
 	SawSum   string `json:"saw_sum,omitempty"`
 	RespSum  string `json:"resp_sum,omitempty"`
 	RespType string `json:"resp_type,omitempty"`
+	RespSum2 bool   `json:"resp_has_sum,omitempty"` // the returned value contains a sum type
 	recv     []*Node
 	again    []*Node
 	mwBody   *Node
@@ -1083,6 +1097,7 @@ type TypedRec struct {
 	ErrValue  bool         `json:"err_value,omitempty"` // the caller holds the server's own error answer as a value
 	GotSum    string       `json:"got_sum,omitempty"`
 	GotType   string       `json:"got_type,omitempty"`
+	SentSum2  bool         `json:"sent_has_sum,omitempty"` // the supplied values contain a sum type
 	Harness   string       `json:"harness,omitempty"` // trouble of the harness itself (never a violation)
 	Problems  []string     `json:"problems,omitempty"`
 	Defaults  int          `json:"defaults"`
@@ -1141,6 +1156,7 @@ func typedHandler(impls map[string][]reflect.Type) func(ctx context.Context, op 
 		}
 		rv.Set(v)
 		ts.resp = snap(v, false, 0)
+		ts.RespSum2 = hasSum(ts.resp)
 		if v.Kind() == reflect.Interface && !v.IsNil() {
 			ts.RespType = v.Elem().Type().String()
 		} else {
@@ -1282,6 +1298,11 @@ func doTyped(ctx context.Context, cls *typedClients, impls map[string][]reflect.
 		tr.sent = append(tr.sent, snap(v, false, 0))
 	}
 	tr.SentSum = digest(tr.sent...)
+	for _, n := range tr.sent {
+		if hasSum(n) {
+			tr.SentSum2 = true
+		}
+	}
 	out := m.Call(in)
 	rec.Returned = true
 	if e := out[len(out)-1]; !e.IsNil() {
